@@ -251,6 +251,48 @@ def h_sdmx_tables(env):
     v = st.SDMXSettings([0, 1, 2]).ueg_vector(rho)
     for n in range(3):
         env.equal("sdmx_power_n%d" % n, v[n], s1[n] * rho ** (1 + env.const(Fraction(n, 3))))
+    # every ordered selection of distinct powers and every number of gradient / l=1 terms: the constant reported at a position is the
+    # constant of the *power* stored there, with the documented density power,
+    # and the recommended normaliser is its reciprocal with the opposite power
+    import itertools
+    # (the canonical-order tables g1 were tied to the independent SDMXFullSettings table above, to 1e-11; exact terms below)
+    H0 = {n: g1[n] for n in range(3)}
+    Hd = {n: g1[3 + n] for n in range(3)}
+    close = lambda a, b: abs(float(a) - float(b)) < 1e-11
+    for r in (1, 2, 3):
+        for pows in itertools.permutations(range(3), r):
+            pows = list(pows)
+            tag = "".join(map(str, pows))
+            for ndt in range(r + 1):
+                for cls, args, n1 in ((st.SDMXGSettings, (ndt,), 0),) + tuple((st.SDMXG1Settings, (ndt, k1), k1) for k1 in range(1, r + 1)):
+                    obj = cls(list(pows), *args)
+                    name = "%s[%s]%s" % (cls.__name__, tag, "".join("_%d" % a for a in args))
+                    want = [H0[n] for n in pows] + [Hd[n] for n in pows[:ndt]]
+                    wpow = pows + pows[:ndt]
+                    uc = list(obj.ueg_const)
+                    env.check("ueg_const/%s" % name, len(uc) == len(want) and all(close(a, b) for a, b in zip(uc, want)), "%r vs %r" % (uc, want))
+                    vec = obj.ueg_vector(rho)
+                    env.check("ueg_vector_length/%s" % name, len(vec) == obj.nfeat, "%d vs nfeat %d" % (len(vec), obj.nfeat))
+                    for k, (c, n) in enumerate(zip(want, wpow)):
+                        if k < len(vec):
+                            env.equal("ueg_vector/%s/%d" % (name, k), vec[k], c * rho ** (1 + env.const(Fraction(n, 3))))
+                    for k in range(len(want), len(vec)):
+                        env.equal("ueg_vector/%s/%d_l1_term_vanishes" % (name, k), vec[k], env.const(0))
+                    norms = obj.get_reasonable_normalizer()
+                    env.check("normalizer_count/%s" % name, len(norms) == obj.nfeat, "%d vs nfeat %d" % (len(norms), obj.nfeat))
+                    wn = want + want[:n1]
+                    wp = wpow + pows[:n1]
+                    for k, (c, n) in enumerate(zip(wn, wp)):
+                        if k < len(norms):
+                            env.check("normalizer/%s/%d" % (name, k), close(norms[k].const, 1.0 / float(c)) and close(norms[k].power, -1 - n / 3.0), "const %r power %r; expected %r %r" % (norms[k].const, norms[k].power, 1.0 / float(c), -1 - n / 3.0))
+            if r >= 1:
+                for k1 in range(0, r + 1):
+                    obj = st.SDMX1Settings(list(pows), k1) if k1 else st.SDMXSettings(list(pows))
+                    name = "%s[%s]_%d" % (type(obj).__name__, tag, k1)
+                    uc = list(obj.ueg_const)
+                    env.check("ueg_const/%s" % name, all(close(a, H0[n]) for a, n in zip(uc, pows)) and len(uc) == r, "%r" % (uc,))
+                    vec = obj.ueg_vector(rho)
+                    env.check("ueg_vector_length/%s" % name, len(vec) == obj.nfeat, "%d vs nfeat %d" % (len(vec), obj.nfeat))
 
 
 def h_repeat(env, kind):
@@ -324,7 +366,7 @@ def prepare(tier):
 META = dict(
     explanation="symbolic execution of the settings/plan/normaliser code at a symbolic uniform density; z3 decides equality of "
                 "the reported UEG vector with the computed features and with the documented closed-form integrals",
-    functions=["ciderpress/dft/settings.py: SemilocalSettings.ueg_vector, get_cider_exponent(_gga), _get_ueg_expnt, NLDFSettingsVI/VJ/VK.ueg_vector, "
+    functions=['ciderpress/dft/settings.py: SDMXSettings / SDMX1Settings / SDMXGSettings / SDMXG1Settings ueg_const, ueg_vector, get_reasonable_normalizer for every ordered selection of powers (sdmx_tables)', "ciderpress/dft/settings.py: SemilocalSettings.ueg_vector, get_cider_exponent(_gga), _get_ueg_expnt, NLDFSettingsVI/VJ/VK.ueg_vector, "
                "_ueg_rho_mult, FracLaplSettings.ueg_vector, SDMX*Settings.ueg_const/ueg_vector, FeatureSettings.ueg_vector/assign_reasonable_normalizer, get_s2, get_alpha",
                "ciderpress/dft/plans.py: _BaseSemilocalPlan.get_feat", "ciderpress/dft/feat_normalizer.py: *.get_ueg, fill_fwd, FeatNormalizerList.get_normalized_feature_vector/ueg_vector",
                "ciderpress/dft/transform_data.py: get_vmap_heg_value, VMap.fill_feat_"],
